@@ -82,6 +82,10 @@ INTRINSICS_V = os.path.join(os.path.dirname(os.path.dirname(os.path.abspath(__fi
 class Skip(Exception):
     """The method body leaves the supported fragment: listed as untranslated with this reason."""
 
+    def __init__(self, msg, cat="other"):
+        Exception.__init__(self, msg)
+        self.cat = cat
+
 
 # ----------------------------------------------------------------------------------------------
 # types (of the Rust side, as far as the translation needs them)
@@ -117,6 +121,9 @@ def coq_type(t, where):
     m = re.match(r"^DenseLane<(.+)>$", t)
     if m:
         return "DenseLane (%s)" % coq_type(m.group(1), where)
+    if t.startswith("["):
+        ety, _ = array_type(t)
+        return "list (%s)" % coq_type(ety, where)
     raise TranslateError("%s: type `%s` has no Coq counterpart" % (where, t))
 
 
@@ -272,6 +279,7 @@ class Translator:
         self.helper_ret = {}
         self.in_progress = []
         self.failed = []       # (key, error text): inside the fragment but not parseable
+        self.cats = {}         # key -> category of the reason it was not translated
         self.used_intr = []    # Coq names of the intrinsics mentioned by translated code, in order of first use
 
     # -- source structure -----------------------------------------------------------------------
@@ -344,6 +352,7 @@ class Translator:
             self.order.append(key)
         except Skip as s:
             self.done[key] = ("skip", str(s), None)
+            self.cats[key] = s.cat
         except TranslateError as ex:
             self.failed.append((key, str(ex)))
             self.done[key] = ("skip", "TRANSLATION FAILED: " + str(ex), None)
@@ -380,21 +389,13 @@ class Translator:
         for n, t in params:
             if t.startswith("*"):
                 raise Skip("raw-pointer code (parameter `%s: %s`): memory access, modelled at index level (C13_load_write) "
-                           "and observed by the guard-page runs" % (n, t))
+                           "and observed by the guard-page runs" % (n, t), "raw pointers (load / write)")
         s = texts(body)
         reasons = []
-        if "transmute" in s:
-            reasons.append("mem::transmute to/from an array")
-        if any(x in s for x in ("for", "while", "loop")):
-            reasons.append("a scalar loop")
-        if "[" in s and "transmute" not in s:
-            reasons.append("array indexing")
+        if any(x in s for x in ("for", "loop")):
+            reasons.append("a scalar loop" + (" over mem::transmute'd arrays" if "transmute" in s else ""))
         if any(x in s for x in ("if", "match", "return")):
             reasons.append("branching")
-        for i in range(len(s) - 2):
-            if s[i] == "." and body[i + 1].kind == "ident" and s[i + 2] == "(":
-                reasons.append("scalar method call `.%s(..)`" % s[i + 1])
-                break
         for x in s:
             if x in UNMODELLED:
                 reasons.append("`%s`: %s (not representable in the lane-list model)" % (x, UNMODELLED[x]))
@@ -403,7 +404,9 @@ class Translator:
             for r in reasons:
                 if r not in uniq:
                     uniq.append(r)
-            raise Skip("; ".join(uniq))
+            cat = ("scalar loop over transmuted arrays" if any(r.startswith("a scalar loop") for r in uniq) else
+                   "poison register / bit-cast between float vector types" if any("not representable" in r for r in uniq) else "other")
+            raise Skip("; ".join(uniq), cat)
 
     def translate_fn(self, it, name, env, family, where, origin):
         params, ret = self.parse_sig(it["head"], where, env)
@@ -469,6 +472,17 @@ def cast_to(v, target, where):
     return Val("(rs_cast %s %d %d %s)" % ("true" if sg1 else "false", w1, w2, v.coq), target)
 
 
+def array_type(t):
+    m = re.match(r"^\[(\w+);(\d+)\]$", t)
+    if not m:
+        raise TranslateError("array type `%s` not understood" % t)
+    return m.group(1), int(m.group(2))
+
+
+def index_expr(coq, ety, k):
+    return "(fnth %d %s)" % (k, coq) if ety in FLOAT_TYS else "(nth %d %s 0)" % (k, coq)
+
+
 BINOPS = [("|", "rs_or"), ("^", "rs_xor"), ("&", "rs_and"), ("<<", "rs_shl"), (">>", "rs_shr"),
           ("+", "Z.add"), ("-", "Z.sub"), ("*", "Z.mul"), ("/", "Z.div")]
 PREC = {"|": 1, "^": 2, "&": 3, "<<": 4, ">>": 4, "+": 5, "-": 5, "*": 6, "/": 6}
@@ -481,6 +495,13 @@ class Parser:
         self.i = 0
         self.self_struct = self_struct
         self.mutable = set()
+        self.consts = {}        # counted-loop variables whose value is known at translation time
+
+    def sub(self, toks):
+        """A parser for a sub-expression: same instance, same locals, same counted-loop constants."""
+        p = Parser(self.tr, toks, self.env, self.family, self.where, self.scope, self.self_struct)
+        p.mutable, p.consts = self.mutable, self.consts
+        return p
 
     # -- token helpers --
     def peek(self, k=0):
@@ -510,22 +531,121 @@ class Parser:
     def block(self):
         lets = []
         saved = dict(self.scope)
+        v = self.statements(lets, final=True)
+        self.scope = saved
+        if not lets:
+            return v
+        return Val("\n  ".join(lets + [v.coq]), v.ty)
+
+    def const_eval(self, toks):
+        """Value of an index / bound expression made of literals, counted-loop variables and + - *; None if not constant."""
+        txt = []
+        for t in toks:
+            if t.kind == "num" and re.match(r"^[0-9][0-9_]*(usize)?$", t.text):
+                txt.append(str(int(t.text.replace("usize", "").replace("_", ""))))
+            elif t.kind == "ident" and t.text in self.consts:
+                txt.append(str(self.consts[t.text]))
+            elif t.text in ("+", "-", "*", "(", ")"):
+                txt.append(t.text)
+            else:
+                return None
+        try:
+            return int(eval(" ".join(txt), {"__builtins__": {}}, {}))
+        except Exception:
+            return None
+
+    def statements(self, lets, final):
+        """Statements up to the end of the token list; with [final] the last item is the block's value.
+        Straight-line code with `let mut` locals is SSA-renamed; a counted `while <i> < <bound> { .. <i> += <k>; }` loop
+        whose counter and bound are compile-time constants is unrolled (the counter never reaches the Gallina)."""
         while True:
-            if self.peek() is not None and self.tok().kind == "ident" and self.peek(1) == "=" and self.peek() in self.mutable:
-                # assignment to a `let mut` local in straight-line code = rebinding (no loops, references or closures here)
+            if self.peek() is None:
+                if final:
+                    self.err("block without a final expression")
+                return None
+            if self.peek() == "while":
+                self.i += 1
+                j = self.i
+                while j < len(self.toks) and self.toks[j].text != "{":
+                    j += 1
+                cond = self.toks[self.i:j]
+                if j >= len(self.toks):
+                    self.err("`while` without a body")
+                e = match_close(self.toks, j)
+                body = self.toks[j + 1:e]
+                self.i = e + 1
+                ct = texts(cond)
+                if "<" not in ct or ct.count("<") != 1:
+                    raise Skip("a `while` loop whose condition is not `<counter> < <constant>`", "scalar loop over transmuted arrays")
+                k = ct.index("<")
+                n_iter = 0
+                while True:
+                    lhs, rhs = self.const_eval(cond[:k]), self.const_eval(cond[k + 1:])
+                    if lhs is None or rhs is None:
+                        raise Skip("a `while` loop whose counter or bound is not a compile-time constant", "scalar loop over transmuted arrays")
+                    if not lhs < rhs:
+                        break
+                    n_iter += 1
+                    if n_iter > 1024:
+                        self.err("counted loop does not terminate within 1024 iterations")
+                    p = Parser(self.tr, body, self.env, self.family, self.where, {}, self.self_struct)
+                    p.scope, p.mutable, p.consts = self.scope, self.mutable, self.consts
+                    p.statements(lets, final=False)
+                continue
+            if self.tok().kind == "ident" and self.peek(1) in ("+=", "-=") and self.peek() in self.consts:
+                name, op = self.peek(), self.peek(1)
+                self.i += 2
+                j = self.i
+                while j < len(self.toks) and self.toks[j].text != ";":
+                    j += 1
+                d = self.const_eval(self.toks[self.i:j])
+                if d is None:
+                    raise Skip("loop counter updated by a non-constant", "scalar loop over transmuted arrays")
+                self.consts[name] += d if op == "+=" else -d
+                self.i = j
+                self.eat(";")
+                continue
+            if self.tok().kind == "ident" and self.peek(1) == "=" and self.peek() in self.mutable:
+                # assignment to a `let mut` local = rebinding (no references or closures in this fragment)
                 name = self.peek()
                 self.i += 2
                 v = self.expr()
                 self.eat(";")
+                self.consts.pop(name, None)
                 lets.append("let v_%s := %s in" % (name, v.coq))
                 continue
             if self.peek() == "let":
                 self.i += 1
+                is_mut = False
                 if self.peek() == "mut":
                     self.i += 1
+                    is_mut = True
                     if self.tok() is not None:
                         self.mutable.add(self.tok().text)
                 t = self.tok()
+                if t is not None and t.text == "[":
+                    # `let [a, b, ..] = <array>;`
+                    e = match_close(self.toks, self.i)
+                    names = []
+                    for part in split_top(self.toks[self.i + 1:e]):
+                        if len(part) != 1 or part[0].kind != "ident":
+                            self.err("array pattern element is not a plain identifier")
+                        names.append(part[0].text)
+                    self.i = e + 1
+                    self.eat("=")
+                    v = self.expr()
+                    self.eat(";")
+                    if not (v.ty and v.ty.startswith("[")):
+                        self.err("array pattern bound to a value that is not an array")
+                    ety, n = array_type(v.ty)
+                    if n != len(names):
+                        self.err("array pattern with %d names for an array of %d" % (len(names), n))
+                    tmp = "v_%s_arr" % "_".join(names)
+                    lets.append("let %s := %s in" % (tmp, v.coq))
+                    for k, nm in enumerate(names):
+                        self.scope[nm] = ety
+                        lets.append("let v_%s := %s in" % (nm, index_expr(tmp, ety, k)))
+                    continue
                 if t is None or t.kind != "ident":
                     self.err("`let` pattern is not a plain identifier")
                 name = t.text
@@ -535,21 +655,24 @@ class Parser:
                     self.i += 1
                     ann = self.type_text(stop=("=",))
                 self.eat("=")
+                start = self.i
                 v = self.expr()
+                init = self.toks[start:self.i]
                 self.eat(";")
                 self.scope[name] = ann and self.env.resolve(ann) or v.ty
+                self.consts.pop(name, None)
+                if is_mut and ann is None and v.ty == "{integer}" and len(init) == 1:
+                    # an un-annotated integer `let mut i = 0;`: a loop counter / index, tracked at translation time
+                    self.consts[name] = int(v.coq)
+                    self.scope[name] = "usize"
                 lets.append("let v_%s := %s in" % (name, v.coq))
                 continue
-            if self.peek() is None:
-                self.err("block without a final expression")
+            if not final:
+                self.err("statement not understood inside a loop body")
             v = self.expr()
             if self.peek() == ";":
                 self.err("expression statement (side effects are outside the supported fragment)")
-            break
-        self.scope = saved
-        if not lets:
             return v
-        return Val("\n  ".join(lets + [v.coq]), v.ty)
 
     def type_text(self, stop):
         depth, out = 0, []
@@ -607,12 +730,30 @@ class Parser:
 
     def postfix(self):
         v = self.atom()
-        while self.peek() == ".":
+        while self.peek() in (".", "["):
+            if self.peek() == "[":
+                e = match_close(self.toks, self.i)
+                inner = self.toks[self.i + 1:e]
+                if not (v.ty and v.ty.startswith("[")):
+                    self.err("indexing a value that is not an array")
+                k = self.const_eval(inner)
+                if k is None:
+                    raise Skip("array indexed by a value that is not a compile-time constant", "scalar loop over transmuted arrays")
+                ety, n = array_type(v.ty)
+                if k >= n:
+                    self.err("index %d out of bounds of %s" % (k, v.ty))
+                v = Val(index_expr(v.coq, ety, k), ety)
+                self.i = e + 1
+                continue
             t = self.toks[self.i + 1] if self.i + 1 < len(self.toks) else None
             if t is None or t.kind != "ident":
                 self.err("field access not understood")
             if self.peek(2) == "(":
-                self.err("method-call syntax is outside the supported fragment")
+                # scalar method call
+                self.i += 2
+                args = self.args()
+                v = self.scalar_method(v, t.text, args)
+                continue
             if t.text not in DENSE_FIELDS:
                 self.err("field `%s` is not a DenseLane field" % t.text)
             inner = None
@@ -623,6 +764,24 @@ class Parser:
             self.i += 2
         return v
 
+    def scalar_method(self, recv, name, args):
+        """`a.wrapping_add(b)`, `a.max(b)`, ... on a scalar of known type (std semantics = Model/Prim.v)."""
+        ty = recv.ty
+        if ty in INT_TYS and not ty.startswith("__"):
+            sg, w = INT_TYS[ty]
+            table = {"wrapping_add": "i_add %d" % w, "wrapping_sub": "i_sub %d" % w, "wrapping_mul": "i_mul %d" % w,
+                     "max": "i_max %s %d" % ("true" if sg else "false", w), "min": "i_min %s %d" % ("true" if sg else "false", w)}
+        elif ty in FLOAT_TYS:
+            table = {"max": "f_max", "min": "f_min"}       # f32::max / f32::min (maxNum / minNum)
+        else:
+            raise Skip("method call `.%s(..)` on a value whose type the translator does not know" % name,
+                       "scalar loop over transmuted arrays")
+        if name not in table:
+            raise Skip("scalar method `.%s(..)` is outside the supported fragment" % name, "scalar loop over transmuted arrays")
+        if len(args) != 1:
+            self.err("`.%s` takes one argument" % name)
+        return Val("(%s %s %s)" % (table[name], recv.coq, args[0].coq), ty)
+
     def args(self):
         """`( e, e, .. )` at the cursor -> [Val]."""
         if self.peek() != "(":
@@ -631,7 +790,7 @@ class Parser:
         parts = split_top(self.toks[self.i + 1:e])
         out = []
         for part in parts:
-            p = Parser(self.tr, part, self.env, self.family, self.where, self.scope, self.self_struct)
+            p = self.sub(part)
             v = p.expr()
             if p.i != len(part):
                 p.err("argument not understood")
@@ -682,7 +841,7 @@ class Parser:
         for part in split_top(self.toks[self.i + 1:e]):
             if len(part) < 3 or part[0].kind != "ident" or part[1].text != ":":
                 self.err("struct literal field not understood")
-            p = Parser(self.tr, part[2:], self.env, self.family, self.where, self.scope, self.self_struct)
+            p = self.sub(part[2:])
             v = p.expr()
             if p.i != len(part) - 2:
                 p.err("struct literal field value not understood")
@@ -704,7 +863,10 @@ class Parser:
         args = self.args()
         st, info = tr.translate_method(reg, ty, m)
         if st != "ok":
-            raise Skip("calls <%s as SimdRegister<%s>>::%s, which is not translated (%s)" % (reg, ty or "T", m, info))
+            imp0 = tr.instance(reg, ty)
+            key0 = (reg, None if imp0["generic"] else ty, m)
+            raise Skip("calls <%s as SimdRegister<%s>>::%s, which is not translated (%s)" % (reg, ty or "T", m, info),
+                       "delegates to an untranslated method: " + tr.cats.get(key0, "other").replace("delegates to an untranslated method: ", ""))
         imp = tr.instance(reg, ty)
         it = imp["fns"].get(m) or tr.defaults.get(m)
         env2 = Env(reg, None if imp["generic"] else ty, imp["regty"], imp["generic"])
@@ -723,7 +885,7 @@ class Parser:
         # parenthesised / block
         if x == "(":
             e = match_close(self.toks, self.i)
-            p = Parser(self.tr, self.toks[self.i + 1:e], self.env, self.family, self.where, self.scope, self.self_struct)
+            p = self.sub(self.toks[self.i + 1:e])
             v = p.expr()
             if p.i != e - self.i - 1:
                 p.err("parenthesised expression not understood")
@@ -731,7 +893,7 @@ class Parser:
             return Val(v.coq, v.ty)
         if x == "{":
             e = match_close(self.toks, self.i)
-            p = Parser(self.tr, self.toks[self.i + 1:e], self.env, self.family, self.where, self.scope, self.self_struct)
+            p = self.sub(self.toks[self.i + 1:e])
             v = p.block_to_end()
             self.i = e + 1
             return Val("(%s)" % v.coq, v.ty)
@@ -831,7 +993,8 @@ class Parser:
             if not self.env.generic:
                 self.err("Math call outside the generic Fallback impl")
             if name == "div":
-                raise Skip("Math::div panics on a zero divisor (integer types): option-valued, stays with correspondence (B)")
+                raise Skip("Math::div panics on a zero divisor (integer types): option-valued, stays with correspondence (B)",
+                           "Fallback: panicking Math::div / size_of of the generic type")
             if name not in MATH_METHODS:
                 self.err("unknown Math method `%s`" % name)
             args = self.args()
@@ -852,6 +1015,46 @@ class Parser:
                 v = p.expr()
                 return Val(v.coq, cty)
             self.err("unknown item DenseLane::%s" % name)
+        if len(path) == 2 and path[0] in INT_TYS and not path[0].startswith("__") and name in ("MIN", "MAX") and self.peek() != "(":
+            sg, w = INT_TYS[path[0]]
+            return Val("(i_%s %s %d)" % (name, "true" if sg else "false", w), path[0])
+        if path[-1] == "transmute" and path[:-1] in ([], ["mem"], ["core", "mem"]):
+            if not gens or len(gens) != 2:
+                raise Skip("mem::transmute without explicit types", "scalar loop over transmuted arrays")
+            tgt = self.env.resolve("".join(texts(gens[1])))
+            args = self.args()
+            if len(args) != 1:
+                self.err("transmute takes one argument")
+            src = args[0]
+            if not tgt.startswith("["):
+                raise Skip("mem::transmute to `%s` (only register -> array of lanes is modelled)" % tgt, "scalar loop over transmuted arrays")
+            ety, n = array_type(tgt)
+            srcty = src.ty
+            g0 = self.env.resolve("".join(texts(gens[0])))
+            if g0 != "_" and srcty and g0 != srcty:
+                self.err("transmute::<%s, ..> applied to a value of type %s" % (g0, srcty))
+            srcty = srcty or (g0 if g0 != "_" else None)
+            if srcty not in VEC_TYS:
+                self.err("transmute of a value whose register type is unknown")
+            cty, size = VEC_TYS[srcty]
+            if ety not in SCALAR_SIZE or SCALAR_SIZE[ety] * n != size:
+                self.err("transmute::<%s, %s>: sizes differ" % (srcty, tgt))
+            if cty == "list Z":
+                if ety in FLOAT_TYS:
+                    self.err("transmute of an integer register to floats")
+                return Val("(lanes_of %d %s)" % (INT_TYS[ety][1], src.coq), tgt)
+            if cty != "list " + ety:
+                self.err("transmute of %s to %s changes the lane type" % (srcty, tgt))
+            return Val(src.coq, tgt)
+        if path in (["core", "cmp", "max"], ["core", "cmp", "min"], ["cmp", "max"], ["cmp", "min"]):
+            args = self.args()
+            if len(args) != 2:
+                self.err("cmp::%s takes two arguments" % name)
+            ty = args[0].ty if args[0].ty in INT_TYS else args[1].ty
+            if ty not in INT_TYS or ty.startswith("__"):
+                self.err("core::cmp::%s on a value that is not a known integer type" % name)
+            sg, w = INT_TYS[ty]
+            return Val("(i_%s %s %d %s %s)" % (name, "true" if sg else "false", w, args[0].coq, args[1].coq), ty)
         if path[-2:] == ["mem", "size_of"] or path == ["size_of"]:
             if not gens or len(gens) != 1:
                 self.err("size_of without a type argument")
@@ -859,7 +1062,7 @@ class Parser:
             self.eat("(")
             self.eat(")")
             if self.env.generic:
-                raise Skip("mem::size_of of a generic type")
+                raise Skip("mem::size_of of a generic type", "Fallback: panicking Math::div / size_of of the generic type")
             if t in VEC_TYS:
                 return Val(str(VEC_TYS[t][1]), "usize")
             if t in SCALAR_SIZE:
@@ -1050,7 +1253,8 @@ def gen_regs(facts, write_if_changed, GEN, REPO):
     facts["regs"] = {
         "triples": len(triples), "translated": len(ok),
         "translated_list": ["%s %s %s" % (k[0], k[1] or "T", k[2]) for k in ok],
-        "untranslated": [{"reg": k[0], "ty": k[1] or "T", "method": k[2], "reason": r} for k, r in untranslated],
+        "untranslated": [{"reg": k[0], "ty": k[1] or "T", "method": k[2], "reason": r, "category": tr.cats.get(k, "other")}
+                         for k, r in untranslated],
         "failed": [{"reg": k[0], "ty": k[1] or "T", "method": k[2], "error": e} for k, e in tr.failed],
         "helpers": list(tr.helper_order),
     }
@@ -1069,8 +1273,19 @@ if __name__ == "__main__":
 
     def w(path, content):
         out[path] = content
+    outdir = None
+    for a in sys.argv[1:]:
+        if a.startswith("--out="):
+            outdir = a[6:]          # write the generated files there (a private copy of coq/Gen, for self-tests)
+    if outdir:
+        def w(path, content):       # noqa: F811
+            old = open(path).read() if os.path.exists(path) else None
+            if old != content:
+                with open(path, "w") as f:
+                    f.write(content)
+            out[path] = content
     try:
-        gen_regs(facts, w, "/tmp/genregs_preview", os.environ.get("VERIF_REPO", "/repo"))
+        gen_regs(facts, w, outdir or "/tmp/genregs_preview", os.environ.get("VERIF_REPO", "/repo"))
     except TranslateError as ex:
         print("TRANSLATE-ERROR", ex)
     r = facts.get("regs", {})
